@@ -37,6 +37,7 @@ import CookModel.Lemmas.DiagPlaceInter
 import CookModel.Lemmas.DiagPlaceDocName
 import CookModel.Lemmas.DiagPlaceSingle
 import CookModel.Lemmas.DiagPlaceInterCw
+import CookModel.Lemmas.DiagPlaceDocLock
 /-
   C07  Diagnostics are sound, complete and placed on the offending construct.
 
@@ -4754,5 +4755,44 @@ example := C07_planted_document_inter_ref_cookware (α := Rat) C07_vEnvI C07_plP
     (by decide)
 example : (parseRecipe (α := Rat) C07_vEnvI ">> source: grandma\n\nUse #&(1)pot{} now\n".toList).diags.toList =
     [⟨.error, .parse, "inter-ref-not-allowed:cookware", [⟨26, 29⟩]⟩] := by decide +kernel
+
+/-- **Instance: an empty value with a blank value TOKEN after the lock, `@name{ = padding %unit }`, planted in a
+    document** (`@x{= %g}`, `@x{ =  %}`; left open by wave 9).  Quantity tokens: blanks, the `=`, at least one padding
+    token (spaces, block comments — these ARE the value tokens), the `%`, any unit tokens; no modifiers, no alias
+    separator, a name showing a non-blank character, not followed by `(`.  On every actual block the construct's events
+    are EXACTLY `empty-value` (error, parse) labelled with the span of the actual padding text (not the empty span at
+    the `%` of `@x{=%g}`), then the warning `empty-unit` on the actual `%` iff the unit text is blank, then the
+    ingredient (unit from the actual unit tokens; lock = the span of the actual `=`) on the byte range of the construct.
+    Every extension set. -/
+theorem C07_planted_document_empty_value_locked (env : Env) (pre post : List SegX) (tmS : Tok) (nameS : List Tok)
+    (tobS tcbS : Tok) (preS : List Tok) (eqS : Tok) (vtS : List Tok) (pctS : Tok) (utS : List Tok)
+    (sh : PlShape env.ext .at tmS [] nameS tobS (preS ++ ([eqS] ++ (vtS ++ pctS :: utS))) tcbS
+      (post.flatMap SegX.spell))
+    (halias : env.ext.has Gen.EXT_COMPONENT_ALIAS = false ∨ ∀ t ∈ nameS, t.kind ≠ .or)
+    (hname : ∃ t ∈ nameS, plainKind t.kind = true ∧ NBs env.cs t.text)
+    (hpre : ∀ t ∈ preS, isWsComment t.kind = true) (heq : eqS.kind = .eq)
+    (hvt : padOK env.cs vtS = true) (hne : vtS ≠ []) (hpct : pctS.kind = .percent) :
+    ∀ (T tpre tB tpost : List Tok), T = tpre ++ (tB ++ tpost) → Spells tpre (pre.flatMap SegX.spell) →
+      Spells tB (c07p_comp tmS [] nameS tobS (preS ++ ([eqS] ++ (vtS ++ pctS :: utS))) tcbS) →
+      Spells tpost (post.flatMap SegX.spell) → RunAt (baseOff T) T →
+      PlPieceAt (α := α) T env.cs env.ext tpre ⟨tB, c07x_ingrQtySpec nameS (preS ++ ([eqS] ++ (vtS ++ pctS :: utS)))
+        (c07u_emptyValueEvs env.cs preS.length vtS.length)
+        (c07u_emptyValueRead env.cs preS.length vtS.length) T tpre tB⟩ :=
+  (C07_planted_document_quantity_family (α := α) env pre post tmS nameS tobS _ tcbS
+    ⟨pctS, by simp, by simp [isPadK, hpct]⟩ _ _
+    (c07u_empty_value_locked_reading env.cs env.ext preS eqS vtS pctS utS hpre heq hvt hne hpct)).1 sh halias hname
+
+/-! non-vacuity: `Use @x{= %g} now`: instance applied to the specification tokens; in the document
+    `>> source: grandma` / blank / that step the evaluated report is exactly `empty-value` on the blank ⟨28,29⟩. -/
+def C07_uQ : List Tok := [] ++ ([tk .eq ['=']] ++ ([tk .ws [' ']] ++ tk .percent ['%'] :: [tk .word ['g']]))
+theorem C07_uShape : PlShape C07_coreEnv.ext .at (tk .at ['@']) [] C07_xName (tk .openBrace ['{']) C07_uQ
+    (tk .closeBrace ['}']) (C07_plPost.flatMap SegX.spell) :=
+  ⟨rfl, Or.inl ⟨rfl, rfl⟩, by decide, rfl, by decide, rfl,
+   by intro t h; simp [C07_plPost, SegX.spell] at h; subst h; decide⟩
+example := C07_planted_document_empty_value_locked (α := Rat) C07_coreEnv C07_plPre' C07_plPost _ C07_xName _ _ []
+  (tk .eq ['=']) [tk .ws [' ']] (tk .percent ['%']) [tk .word ['g']] C07_uShape (Or.inl rfl) C07_xNameNB
+  (by intro t h; cases h) rfl (by decide) (by decide) rfl
+example : (parseRecipe (α := Rat) C07_coreEnv ">> source: grandma\n\nUse @x{= %g} now\n".toList).diags.toList =
+    [⟨.error, .parse, "empty-value", [⟨28, 29⟩]⟩] := by decide +kernel
 
 end Cook
